@@ -24,10 +24,51 @@ from .common import *  # noqa
 from ._ekobox import explore, cleanup_markers, symarr, prove_all_zero, prove_concrete, getv, decide, lift, AbsNumpy
 from symx.solver import prove_zero
 from symx import harness as H
+from symx.val import SymbolicEscape
 
 MOD = "harness.C46"
 PIDS = [22, -6, -5, -4, -3, -2, -1, 21, 1, 2, 3, 4, 5, 6]  # LHAPDF/eko flavour basis order (checked against eko below)
 EVOL = ["ph", "S", "g", "V", "V3", "V8", "V15", "V24", "V35", "T3", "T8", "T15", "T24", "T35"]
+
+
+class SymArray(rnp.ndarray):
+    """object array that refuses, at once, to turn a comparison on symbolic entries into a boolean mask: numpy would ask every
+    entry for its truth value, i.e. fork once per entry (2^(14*nodes) paths).  Magnitude-dependent treatment of the data is
+    not something a projection may do (it is linear); the case then ends through its registered fall-back replays, which
+    sample blocks rescaled over 22 orders of magnitude."""
+
+    def _cmp(self, other, op):
+        if self.dtype == object and any(isinstance(e, (SR, Cx)) and not e.is_const() for e in self.flat):
+            raise SymbolicEscape("comparison (%s %r) on symbolic block data used as a mask: the treatment depends on the magnitude of the data" % (op, other))
+        return getattr(rnp.asarray(self), "__%s__" % op)(other)
+
+    def __lt__(self, o):
+        return self._cmp(o, "lt")
+
+    def __le__(self, o):
+        return self._cmp(o, "le")
+
+    def __gt__(self, o):
+        return self._cmp(o, "gt")
+
+    def __ge__(self, o):
+        return self._cmp(o, "ge")
+
+
+class ProjNumpy(AbsNumpy):
+    """allocation and abs() hand out SymArray views, so that masks built from symbolic data are noticed immediately"""
+
+    def zeros(self, shape, dtype=float, **k):
+        return super().zeros(shape, dtype, **k).view(SymArray)
+
+    def zeros_like(self, a, dtype=None, **k):
+        return self.zeros(rnp.shape(a))
+
+    def abs(self, x):
+        r = super().abs(x)
+        return r.view(SymArray) if isinstance(r, rnp.ndarray) else r
+
+    absolute = abs
 
 
 def evol_definition(label):
@@ -109,6 +150,11 @@ def _check_selection(log, fl, name, blocks, reprs_real, reprs, complement, compl
     # a further call in the same process on the same blocks in reverse order: no block may depend on what was projected before it
     out3 = fl.project(blocks[::-1], reprs_real)[::-1]
     h_diffs = []
+    # linearity: rescaling a block by c rescales its projection by c (whatever the magnitude of the data)
+    c = SR.var("cscale")
+    scaled = [dict(b, data=(b["data"] * c if len(b["data"]) else b["data"])) for b in blocks]
+    out4 = fl.project(scaled, reprs_real)
+    l_diffs = []
     for bi, (b, o) in enumerate(zip(blocks, out)):
         if len(b["data"]) == 0:
             ok = ok and len(o["data"]) == 0 and list(o["pids"]) == list(b["pids"])
@@ -131,6 +177,7 @@ def _check_selection(log, fl, name, blocks, reprs_real, reprs, complement, compl
                 c_diffs += [g - f for g, f in zip(got, F)]
             i_diffs += [out2[bi]["data"][i, a] - got[a] for a in range(14)]
             h_diffs += [out3[bi]["data"][i, a] - got[a] for a in range(14)] if tuple(rnp.shape(out3[bi]["data"])) == (len(b["data"]), 14) else [SR(QONE)]
+            l_diffs += [out4[bi]["data"][i, a] - c * got[a] for a in range(14)] if tuple(rnp.shape(out4[bi]["data"])) == (len(b["data"]), 14) else [SR(QONE)]
     # inputs untouched
     same = all(rnp.array_equal(b["pids"], s[0]) and b["data"].shape == s[1].shape and all(x is y for x, y in zip(b["data"].flat, s[1].flat))
                for b, s in zip(blocks, snapshot))
@@ -140,6 +187,7 @@ def _check_selection(log, fl, name, blocks, reprs_real, reprs, complement, compl
         return
     for key, diffs, what in (("project:formula", f_diffs, "out == sum_e e (e.F)/(e.e)"), ("project:kept", k_diffs, "components along the selection are kept"),
                              ("project:annihilated", a_diffs, "the orthogonal complement is removed"), ("project:idempotent", i_diffs, "projecting twice == projecting once"),
+                             ("project:linear", l_diffs, "project(c F) == c project(F) for a symbolic factor c: no dependence on the magnitude of the data"),
                              ("project:history", h_diffs, "each block's result is independent of the blocks / calls processed before it (same blocks in reverse order, later call)")):
         v = prove_all_zero(diffs, "%s: %s" % (name, what))
         decide(log, v, key=key, replay=(MOD, "replay_project", rk), sampler=_sampler)
@@ -154,8 +202,9 @@ def _unit(p):
 
 # ---------------------------------------------------------------------------
 def case_helpers(log):
-    fl = sym_module("ekobox.genpdf.flavors", np=AbsNumpy())  # abs() (if the code ever takes one) as an atom: no sign forks
+    fl = sym_module("ekobox.genpdf.flavors", np=ProjNumpy())  # abs() as an atom (no sign forks); masks from symbolic data escape at once
     log.encode(fl.pid_to_flavor, fl.evol_to_flavor)
+    log.register_replay("helpers:fallback", (MOD, "replay_helpers", {}), _sampler)
     from eko import basis_rotation as br
 
     def run():
@@ -181,9 +230,12 @@ def case_helpers(log):
 
 def case_labels(log, basis, selections, nnodes, tag):
     """basis 'pid' | 'evol'; selections: list of index tuples into PIDS / EVOL"""
-    fl = sym_module("ekobox.genpdf.flavors", np=AbsNumpy())  # abs() (if the code ever takes one) as an atom: no sign forks
+    fl = sym_module("ekobox.genpdf.flavors", np=ProjNumpy())  # abs() as an atom (no sign forks); masks from symbolic data escape at once
     log.encode(fl.project, fl.pid_to_flavor, fl.evol_to_flavor)
     seed0 = log.rng.randint(0, 10**9)
+    rng0 = random.Random(seed0)
+    for si, sel in enumerate(selections[:3]):  # fall-back replays (same layouts as the symbolic run), should the symbolic run not complete
+        log.register_replay("project:fallback", (MOD, "replay_project", {"basis": basis, "sel": list(sel), "layout": _layout(rng0, nnodes, with_empty=(si % 3 == 0))}), _mk_sampler())
 
     def run():
         rng = random.Random(seed0)
@@ -219,6 +271,9 @@ def _custom(kind):
             v[i] = c
         return v
 
+    if kind == "one":
+        a = SR.var("a")  # one flavour with a coefficient of either sign
+        return [vec({9: a})], [_unit_i(i) for i in range(14) if i != 9], False
     if kind == "single14":
         c = [SR.var("c%d" % i) for i in range(14)]
         comp = [vec({k: c[k + 1], k + 1: -c[k]}) for k in range(13)]
@@ -260,14 +315,18 @@ def _unit_i(i):
 
 
 def case_custom(log, kind, nnodes):
-    fl = sym_module("ekobox.genpdf.flavors", np=AbsNumpy())  # abs() (if the code ever takes one) as an atom: no sign forks
+    fl = sym_module("ekobox.genpdf.flavors", np=ProjNumpy())  # abs() as an atom (no sign forks); masks from symbolic data escape at once
     log.encode(fl.project)
     seed0 = log.rng.randint(0, 10**9)
+    log.register_replay("project:fallback", (MOD, "replay_project", {"basis": "custom", "kind": kind, "layout": _layout(random.Random(seed0), nnodes, with_empty=True)}), _mk_sampler())
 
     def run():
         vecs, comp, complete = _custom(kind)
         for v_ in vecs:
             assume(_dot(v_, v_), ">0")
+            for e in v_:
+                if isinstance(e, SR) and not e.is_const():
+                    assume(e, "!=0")  # coefficients are non-zero on their support (structural zeros are the integers 0)
         layout = _layout(random.Random(seed0), nnodes, with_empty=True)
         blocks = _mk_blocks(layout)
         reprs_real = [rnp.array(v_, dtype=object) for v_ in vecs]
@@ -293,8 +352,23 @@ def _validate(log, fl):
         log.validate()
 
 
-def _sampler(rng):
-    return {"seed": Fraction(rng.randint(1, 10**6))}
+SCALES = [-16, 0, -15, 6, -12, 3, -14, -6]  # powers of ten by which whole blocks are rescaled (large-x tails ... large normalisations)
+
+
+def _mk_sampler():
+    """seeded random blocks, rescaled: the first candidate by 1e-16, then 1, 1e-15, 1e6, ... (odd blocks by another power)"""
+    state = {"n": 0}
+
+    def sampler(rng):
+        e = SCALES[state["n"] % len(SCALES)]
+        e2 = SCALES[(state["n"] + 3) % len(SCALES)]
+        state["n"] += 1
+        return {"seed": Fraction(rng.randint(1, 10**6)), "scale": Fraction(10) ** e, "scale2": Fraction(10) ** e2}
+
+    return sampler
+
+
+_sampler = _mk_sampler()
 
 
 # ---------------------------------------------------------------------------
@@ -329,6 +403,8 @@ def _custom_float(kind, rng, point):
             v[i] = c
         return v
 
+    if kind == "one":
+        return [vec({9: g("a")})], False
     if kind == "single14":
         return [[g("c%d" % i) for i in range(14)]], False
     if kind == "disjoint":
@@ -380,7 +456,11 @@ def replay_project(point, basis, sel=None, kind=None, layout=None):
         d = rng.normal(size=(n, len(ps))) if n else rnp.array([])
         for idx in rnp.ndindex(d.shape):
             d[idx] = getv(point, "d%d_%d_%d" % ((bi,) + idx), d[idx])
-        datas.append(d)
+        # the property holds for data of any size: whole blocks rescaled (even / odd blocks by different powers of ten)
+        sc = getv(point, "scale", 1.0) if bi % 2 == 0 else getv(point, "scale2", 1.0)
+        if not (1e-30 < sc < 1e30):
+            sc = 1.0
+        datas.append(d * sc)
 
     def mk():
         return [{"mu2grid": rnp.array([1.0, 2.0]), "xgrid": rnp.array([0.1, 1.0]), "pids": rnp.array(ps), "data": d.copy()} for (ps, _n), d in zip(layout, datas)]
@@ -411,7 +491,7 @@ def replay_project(point, basis, sel=None, kind=None, layout=None):
             for e in vecs:
                 c = sum(x * y for x, y in zip(e, F)) / sum(x * x for x in e)
                 want = [w + x * c for w, x in zip(want, e)]
-            scale = 1 + max(abs(x) for x in F)
+            scale = max(max(abs(x) for x in F), 1e-300)  # relative to the size of this block's data
             for a in range(14):
                 if abs(o["data"][i, a] - want[a]) > 1e-8 * scale:
                     return {"detail": "project(%s), block %d of %d (pids %r, %d nodes; %d earlier block(s) of the same size, the one before has pids %r) node %d flavour %d: got %r, orthogonal projection of this block gives %r"
@@ -432,7 +512,7 @@ def main():
     chk.bounds = ["one project() call on 5 data blocks (+ an empty one): subset of 5-9 pids -> subset of the same size lacking PIDs of the first -> all 14 pids shuffled -> subset lacking one of them (all with the same number of nodes: 2, thorough 3) -> 3 pids with one node more; data entries symbolic reals",
                   "history: in the same process the result is projected again and the same blocks are projected in reverse order; every block must come out as the projection of itself",
                   "selections of PIDs and of evolution labels: every single label, %s, subsets of size 3-13 (seeded), the complete set" % ("all 91 pairs" if thorough else "24 seeded pairs"),
-                  "custom combinations with symbolic coefficients, orthogonal by construction: one generic 14-vector; two vectors on disjoint supports; (a,b),(−sb,sa) on a shared support; "
+                  "custom combinations with symbolic coefficients (non-zero on their support, either sign), orthogonal by construction: one flavour with a symbolic coefficient; one generic 14-vector; two vectors on disjoint supports; (a,b),(−sb,sa) on a shared support; "
                   "(a,b,c),(b,−a,0); complete sets {(a_k,b_k),(−b_k,a_k)}_k and {p_k q+, m_k q−, photon, gluon}"]
     chk.out_of_claim = ["non-orthogonal selections (the sum of rank-1 projectors is then not a projector; the property speaks of orthogonal combinations)",
                         "label classification is_evolution_labels / is_pid_labels and the surrounding generate_pdf I/O", "unified (QED) evolution labels: evol_to_flavor only knows the QCD evolution basis"]
@@ -454,7 +534,7 @@ def main():
             chk.case("%s.pairs%d" % (basis, c // 12), case_labels, basis=basis, selections=pairs[c:c + 12], nnodes=nn, tag="pairs")
         for c in range(0, len(subsets), 6):
             chk.case("%s.subsets%d" % (basis, c // 6), case_labels, basis=basis, selections=subsets[c:c + 6], nnodes=nn, tag="subsets")
-    for kind in ("single14", "disjoint", "rot2", "triple", "complete", "complete-mixed"):
+    for kind in ("one", "single14", "disjoint", "rot2", "triple", "complete", "complete-mixed"):
         chk.case("custom.%s" % kind, case_custom, kind=kind, nnodes=nn)
     import ekobox.genpdf.flavors  # noqa: F401  imported before the workers fork (saves the import in every case)
 
